@@ -1,4 +1,4 @@
-(* C15/Lemmas.v — the property lemmas, for every reachable state (wf_exec). *)
+(* C15/Lemmas.v — the property lemmas, for every well-formed state (every reachable state is one: reachable_wf). *)
 From Coq Require Import ZArith List Bool Arith Lia.
 From NV Require Import C15.Model C15.ListLemmas C15.Invariant C15.Steps C15.Steps2.
 Import ListNotations.
@@ -12,6 +12,14 @@ Lemma reachable_step st o : reachable st -> reachable (fst (step st o)).
 Proof.
   intros (ops & ->). exists (ops ++ [o]). unfold exec. rewrite fold_left_app. reflexivity.
 Qed.
+
+(* The lemmas below are stated for EVERY well-formed state (Invariant.wf), reachable or not; every reachable state
+   is one (reachable_wf), and the invariant is kept by every step (wf_step). *)
+Lemma ok_wf st : wf st -> wf st.
+Proof. auto. Qed.
+
+Lemma ok_step st o : wf st -> wf (fst (step st o)).
+Proof. apply wf_step. Qed.
 
 (* contents of sequence object k *)
 Definition C (st : state) (k : nat) : list (list Z) := contents st (getseq st k).
@@ -55,11 +63,11 @@ Definition grows (o : op) (i : nat) : Prop :=
   | _ => False
   end.
 
-Lemma grow_isolated st o i : reachable st -> grows o i ->
+Lemma grow_isolated st o i : wf st -> grows o i ->
   forall j, j <> i -> j < length (seqs st) ->
     getseq (fst (step st o)) j = getseq st j /\ C (fst (step st o)) j = C st j.
 Proof.
-  intros R G j Hji Hj. pose proof (reachable_wf st R) as W.
+  intros R G j Hji Hj. pose proof (ok_wf st R) as W.
   destruct o; simpl in G; try tauto; subst; simpl.
   - destruct (is_live st i) eqn:L; simpl; auto. apply is_live_lt in L.
     destruct e as [|z e]; [rewrite do_append_nil; auto|].
@@ -89,13 +97,13 @@ Definition F (st : state) (k : nat) : list (list Z) := full st (getseq st k).
 Lemma F_no_cache st k : scache (getseq st k) = None -> F st k = C st k.
 Proof. intros. unfold F, C. apply full_no_cache; auto. Qed.
 
-Lemma own_append_gen st i bpr e cb : reachable st -> is_live st i = true ->
+Lemma own_append_gen st i bpr e cb : wf st -> is_live st i = true ->
   let st' := fst (step st (OAppend i bpr e cb)) in
   F st' i = spec_append (F st i) e /\
   (scache (getseq st i) = None -> cb = false -> C st' i = spec_append (C st i) e) /\
   (scache (getseq st i) <> None \/ cb = true -> C st' i = C st i).
 Proof.
-  intros R L. pose proof (reachable_wf st R) as W. simpl. rewrite L. simpl.
+  intros R L. pose proof (ok_wf st R) as W. simpl. rewrite L. simpl.
   apply is_live_lt in L.
   destruct e as [|z e].
   - rewrite do_append_nil. simpl. auto.
@@ -106,38 +114,38 @@ Proof.
     + intros H. apply (N2 H).
 Qed.
 
-Lemma own_finalize st i : reachable st -> is_live st i = true ->
+Lemma own_finalize st i : wf st -> is_live st i = true ->
   C (fst (step st (OFinalize i))) i = F st i.
 Proof.
-  intros R L. pose proof (reachable_wf st R) as W. simpl. rewrite L. simpl. apply is_live_lt in L.
+  intros R L. pose proof (ok_wf st R) as W. simpl. rewrite L. simpl. apply is_live_lt in L.
   apply (finalize_spec st i W L).
 Qed.
 
-Lemma own_extend st i bpr pre els : reachable st -> is_live st i = true ->
+Lemma own_extend st i bpr pre els : wf st -> is_live st i = true ->
   pre = true \/ scache (getseq st i) = None ->
   C (fst (step st (OExtend i bpr pre els))) i = spec_extend (C st i) els.
 Proof.
-  intros R L H. pose proof (reachable_wf st R) as W. simpl. rewrite L. simpl. apply is_live_lt in L.
+  intros R L H. pose proof (ok_wf st R) as W. simpl. rewrite L. simpl. apply is_live_lt in L.
   destruct (extend_spec st i bpr pre els false W L) as (_ & _ & CT & _).
   unfold C. rewrite CT. destruct pre; auto. destruct H as [H|H]; [discriminate|].
   rewrite full_no_cache; auto.
 Qed.
 
-Lemma own_extend_seq st i bpr j : reachable st -> is_live st i = true -> is_live st j = true ->
+Lemma own_extend_seq st i bpr j : wf st -> is_live st i = true -> is_live st j = true ->
   C (fst (step st (OExtendSeq i bpr j))) i = spec_extend (C st i) (C st j).
 Proof.
-  intros R L Lj. pose proof (reachable_wf st R) as W. simpl. rewrite L, Lj. simpl. apply is_live_lt in L.
+  intros R L Lj. pose proof (ok_wf st R) as W. simpl. rewrite L, Lj. simpl. apply is_live_lt in L.
   apply (extend_spec st i bpr true _ _ W L).
 Qed.
 
 (* extend(good ++ [refused element] ++ more): the good elements are kept, an error is reported *)
-Lemma own_extend_bad st i bpr pre good extra : reachable st -> is_live st i = true ->
+Lemma own_extend_bad st i bpr pre good extra : wf st -> is_live st i = true ->
   scache (getseq st i) = None ->
   let st' := fst (step st (OExtendBad i bpr pre good extra)) in
   (exists e, snd (step st (OExtendBad i bpr pre good extra)) = RErr e) /\
   C st' i = spec_extend (C st i) good /\ scache (getseq st i) = None.
 Proof.
-  intros R L Hc. pose proof (reachable_wf st R) as W. simpl. rewrite L. apply is_live_lt in L.
+  intros R L Hc. pose proof (ok_wf st R) as W. simpl. rewrite L. apply is_live_lt in L.
   assert (E0 : forall g, Forall (fun e => e = []) g -> spec_extend (C st i) g = C st i).
   { induction g as [|e g IH]; intros HF; [reflexivity|]. inversion HF; subst. simpl. apply IH; auto. }
   destruct pre.
@@ -154,10 +162,10 @@ Proof.
       unfold C. rewrite CT. rewrite full_no_cache; auto.
 Qed.
 
-Lemma own_new st bytes bpr pre els : reachable st ->
+Lemma own_new st bytes bpr pre els : wf st ->
   C (fst (step st (ONew bytes bpr pre els))) (length (seqs st)) = spec_extend [] els.
 Proof.
-  intros R. pose proof (reachable_wf st R) as W. simpl.
+  intros R. pose proof (ok_wf st R) as W. simpl.
   set (st1 := mkSt (heap st ++ [empty_buf]) (seqs st ++ [mkSeq (length (heap st)) [] [] false bytes None true])).
   assert (W1 : wf st1) by (apply wf_add_fresh; simpl; auto; lia).
   assert (H1 : length (seqs st) < length (seqs st1)) by (unfold st1; simpl; rewrite app_length; simpl; lia).
@@ -194,13 +202,13 @@ Proof.
   intros k Hk. unfold getseq; simpl. apply nth_app_old; auto.
 Qed.
 
-Lemma own_get_int st i k : reachable st -> is_live st i = true ->
+Lemma own_get_int st i k : wf st -> is_live st i = true ->
   let n := Z.of_nat (length (C st i)) in
   snd (step st (OGetInt i k)) =
     (if ((- n <=? k) && (k <? n))%Z then RElem (nth (Z.to_nat (if (k <? 0)%Z then k + n else k)) (C st i) [])
      else RErr EIndex) /\ fst (step st (OGetInt i k)) = st.
 Proof.
-  intros R L. pose proof (reachable_wf st R) as W. simpl. rewrite L. apply is_live_lt in L.
+  intros R L. pose proof (ok_wf st R) as W. simpl. rewrite L. apply is_live_lt in L.
   destruct (wf_seq _ W i L) as (_ & S2 & _).
   assert (LC : length (C st i) = length (offs (getseq st i))).
   { unfold C, contents, elems_of. rewrite map_length, combine_length. lia. }
@@ -210,14 +218,14 @@ Proof.
   apply andb_prop in E. destruct E as (E1 & E2). destruct (k <? 0)%Z eqn:E3; lia.
 Qed.
 
-Lemma own_get_idx st i ix : reachable st -> is_live st i = true ->
+Lemma own_get_idx st i ix : wf st -> is_live st i = true ->
   let st' := fst (step st (OGetIdx i ix)) in
   match positions (length (C st i)) ix with
   | Ok ps => snd (step st (OGetIdx i ix)) = ROk /\ C st' (length (seqs st)) = spec_pick (C st i) ps /\ keeps st st'
   | Err e => snd (step st (OGetIdx i ix)) = RErr e /\ st' = st
   end.
 Proof.
-  intros R L. pose proof (reachable_wf st R) as W. simpl. rewrite L. apply is_live_lt in L.
+  intros R L. pose proof (ok_wf st R) as W. simpl. rewrite L. apply is_live_lt in L.
   destruct (wf_seq _ W i L) as (_ & S2 & _).
   assert (LC : length (C st i) = length (offs (getseq st i))).
   { unfold C, contents, elems_of. rewrite map_length, combine_length. lia. }
@@ -231,7 +239,7 @@ Proof.
   rewrite G. unfold contents. cbn [sbuf offs lens]. apply elems_of_pick; auto.
 Qed.
 
-Lemma own_view st i bytes : reachable st -> is_live st i = true ->
+Lemma own_view st i bytes : wf st -> is_live st i = true ->
   let st' := fst (step st (OView i bytes)) in
   C st' (length (seqs st)) = C st i /\ keeps st st' /\
   sbuf (getseq st' (length (seqs st))) = sbuf (getseq st i).
@@ -242,14 +250,14 @@ Proof.
   unfold C. rewrite G. split; [reflexivity|split; [apply add_seq_keeps|reflexivity]].
 Qed.
 
-(* copy() succeeds on every reachable sequence; the copy has the same contents on a buffer of
+(* copy() succeeds on every wf sequence; the copy has the same contents on a buffer of
    its own, nothing else changes *)
-Lemma copy_total st i : reachable st -> is_live st i = true ->
+Lemma copy_total st i : wf st -> is_live st i = true ->
   let st' := fst (step st (OCopy i)) in
   snd (step st (OCopy i)) = ROk /\ C st' (length (seqs st)) = C st i /\ keeps st st' /\
   (forall j, j < length (seqs st) -> sbuf (getseq st' j) <> sbuf (getseq st' (length (seqs st)))).
 Proof.
-  intros R L. pose proof (reachable_wf st R) as W. simpl. rewrite L. simpl. apply is_live_lt in L.
+  intros R L. pose proof (ok_wf st R) as W. simpl. rewrite L. simpl. apply is_live_lt in L.
   destruct (do_copy_spec st i W L) as (W1 & K1 & L1 & G1 & C1 & R1).
   split; [auto|split; [exact C1|split; [exact K1|]]].
   intros j Hj. rewrite G1. cbn [sbuf]. destruct K1 as (_ & _ & K3 & _). rewrite K3 by auto.
@@ -368,8 +376,8 @@ Proof.
     unfold cell at 1 2. rewrite !G. fold (cell st0 j q). rewrite E2, E. reflexivity.
 Qed.
 
-(* ---------------------------------------------------------------- assignment and in-place operators on reachable states *)
-Lemma set_int_cells st i k v : reachable st -> is_live st i = true ->
+(* ---------------------------------------------------------------- assignment and in-place operators on wf states *)
+Lemma set_int_cells st i k v : wf st -> is_live st i = true ->
   let st' := fst (step st (OSetInt i k v)) in
   match norm_index (Z.of_nat (length (offs (getseq st i)))) k with
   | Ok p =>
@@ -380,7 +388,7 @@ Lemma set_int_cells st i k v : reachable st -> is_live st i = true ->
   | Err e => snd (step st (OSetInt i k v)) = RErr e /\ st' = st
   end.
 Proof.
-  intros R L. pose proof (reachable_wf st R) as W. simpl. rewrite L. apply is_live_lt in L.
+  intros R L. pose proof (ok_wf st R) as W. simpl. rewrite L. apply is_live_lt in L.
   destruct (norm_index _ k) as [p|e] eqn:N; simpl; auto.
   apply norm_index_lt in N. pose proof (pairs_nth st i p W L N) as Hin.
   split; [auto|]. unfold fill_buf.
@@ -391,7 +399,7 @@ Proof.
   apply (write_elem_cells st i _ _ _ W L Hin (repeat_length _ _) j q Hj Hq).
 Qed.
 
-Lemma set_idx_scalar_cells st i ix v : reachable st -> is_live st i = true ->
+Lemma set_idx_scalar_cells st i ix v : wf st -> is_live st i = true ->
   let st' := fst (step st (OSetIdx i ix (VScalar v))) in
   match positions (length (offs (getseq st i))) ix with
   | Ok ps =>
@@ -403,7 +411,7 @@ Lemma set_idx_scalar_cells st i ix v : reachable st -> is_live st i = true ->
   | Err e => snd (step st (OSetIdx i ix (VScalar v))) = RErr e /\ st' = st
   end.
 Proof.
-  intros R L. pose proof (reachable_wf st R) as W. simpl. rewrite L. apply is_live_lt in L.
+  intros R L. pose proof (ok_wf st R) as W. simpl. rewrite L. apply is_live_lt in L.
   destruct (positions _ ix) as [ps|e] eqn:P; simpl; auto.
   apply positions_bound in P. destruct (wf_seq _ W i L) as (_ & S2 & _).
   set (T := combine (pick 0 (offs (getseq st i)) ps) (pick 0 (lens (getseq st i)) ps)).
@@ -417,7 +425,7 @@ Proof.
     unfold T, pick, cell. clear. induction ps; simpl; auto. rewrite IHps. reflexivity.
 Qed.
 
-Lemma inplace_cells st i f dt : reachable st -> is_live st i = true -> offs (getseq st i) <> [] ->
+Lemma inplace_cells st i f dt : wf st -> is_live st i = true -> offs (getseq st i) <> [] ->
   let st' := fst (step st (OOp i f true dt)) in
   snd (step st (OOp i f true dt)) = ROk /\ seqs st' = seqs st /\
   forall j q, j < length (seqs st) -> q < length (offs (getseq st j)) ->
@@ -425,7 +433,7 @@ Lemma inplace_cells st i f dt : reachable st -> is_live st i = true -> offs (get
                 then iter (occ (cell st j q) (pairs (getseq st i))) (map (apply_fn f)) (V st j q)
                 else V st j q.
 Proof.
-  intros R L NE. pose proof (reachable_wf st R) as W. simpl. rewrite L. apply is_live_lt in L.
+  intros R L NE. pose proof (ok_wf st R) as W. simpl. rewrite L. apply is_live_lt in L.
   destruct (offs (getseq st i)) as [|o0 os0] eqn:EO; [congruence|]. rewrite <- EO. simpl.
   split; [auto|split].
   - apply (stable_map_elems st i (apply_fn f) _ st (stable_refl st W) L (incl_refl _)).
@@ -448,7 +456,7 @@ Qed.
 
 (* all or none: an in-place operator on A reaches every cell A shares with B (as many times as
    A lists the cell) when they are on the same buffer, and no cell of B otherwise *)
-Lemma inplace_all_or_none st a f dt b : reachable st -> is_live st a = true ->
+Lemma inplace_all_or_none st a f dt b : wf st -> is_live st a = true ->
   offs (getseq st a) <> [] -> b < length (seqs st) ->
   let st' := fst (step st (OOp a f true dt)) in
   (sbuf (getseq st b) <> sbuf (getseq st a) ->
@@ -474,7 +482,7 @@ Proof.
   destruct m; auto. apply IH. lia.
 Qed.
 
-Lemma view_cells st j ix ps : reachable st -> is_live st j = true ->
+Lemma view_cells st j ix ps : wf st -> is_live st j = true ->
   positions (length (offs (getseq st j))) ix = Ok ps ->
   let st' := fst (step st (OGetIdx j ix)) in
   let v := length (seqs st) in
@@ -498,13 +506,13 @@ Proof. unfold slice. rewrite skipn_map, firstn_map. reflexivity. Qed.
 Lemma elems_of_map (g : Z -> Z) r os ls : elems_of (map g r) os ls = map (map g) (elems_of r os ls).
 Proof. unfold elems_of. rewrite map_map. apply map_ext. intros. apply slice_map. Qed.
 
-Lemma op_copy_spec st i f dt : reachable st -> is_live st i = true -> offs (getseq st i) <> [] ->
+Lemma op_copy_spec st i f dt : wf st -> is_live st i = true -> offs (getseq st i) <> [] ->
   let st' := fst (step st (OOp i f false dt)) in
   snd (step st (OOp i f false dt)) = ROk /\
   C st' (length (seqs st)) = map (map (apply_fn f)) (C st i) /\
   (forall k, k < length (seqs st) -> getseq st' k = getseq st k /\ C st' k = C st k).
 Proof.
-  intros R L NE. pose proof (reachable_wf st R) as W. unfold step. cbv zeta. rewrite L. apply is_live_lt in L.
+  intros R L NE. pose proof (ok_wf st R) as W. unfold step. cbv zeta. rewrite L. apply is_live_lt in L.
   destruct (offs (getseq st i)) as [|o0 os0] eqn:EO; [congruence|]. clear NE EO o0 os0. cbn [fst snd].
   split; [auto|].
   destruct (do_copy_spec st i W L) as (W1 & K1 & L1 & G1 & C1 & R1).
@@ -548,12 +556,12 @@ Proof.
 Qed.
 
 (* ---------------------------------------------------------------- constructor, concatenate: nothing else changes *)
-Lemma new_keeps st bytes bpr pre els : reachable st ->
+Lemma new_keeps st bytes bpr pre els : wf st ->
   forall j, j < length (seqs st) ->
     getseq (fst (step st (ONew bytes bpr pre els))) j = getseq st j /\
     C (fst (step st (ONew bytes bpr pre els))) j = C st j.
 Proof.
-  intros R j Hj. pose proof (reachable_wf st R) as W. simpl.
+  intros R j Hj. pose proof (ok_wf st R) as W. simpl.
   set (s0 := mkSeq (length (heap st)) [] [] false bytes None true).
   set (st1 := mkSt (heap st ++ [empty_buf]) (seqs st ++ [s0])).
   assert (W1 : wf st1) by (apply wf_add_fresh; simpl; auto; lia).
@@ -586,13 +594,13 @@ Proof.
       rewrite (proj2 (Hold j0 Hj0)). reflexivity.
 Qed.
 
-Lemma own_concat st j0 b0 rest : reachable st ->
+Lemma own_concat st j0 b0 rest : wf st ->
   forallb (fun p => is_live st (fst p)) ((j0, b0) :: rest) = true ->
   let st' := fst (step st (OConcat ((j0, b0) :: rest))) in
   C st' (length (seqs st)) = fold_left (fun a p => spec_extend a (C st (fst p))) rest (C st j0) /\
   (forall j, j < length (seqs st) -> getseq st' j = getseq st j /\ C st' j = C st j).
 Proof.
-  intros R L. pose proof (reachable_wf st R) as W. cbv zeta. unfold step. rewrite L. cbn [fst].
+  intros R L. pose proof (ok_wf st R) as W. cbv zeta. unfold step. rewrite L. cbn [fst].
   simpl in L. apply andb_prop in L. destruct L as (L0 & Lr). apply is_live_lt in L0.
   destruct (do_copy_spec st j0 W L0) as (W1 & K1 & L1 & G1 & C1 & R1).
   set (st1 := do_copy st j0) in *. set (k := length (seqs st)) in *.
@@ -604,7 +612,7 @@ Proof.
   split; [exact A|exact B].
 Qed.
 
-Lemma set_int_rows_cells st i k vs : reachable st -> is_live st i = true ->
+Lemma set_int_rows_cells st i k vs : wf st -> is_live st i = true ->
   let st' := fst (step st (OSetIntRows i k vs)) in
   match norm_index (Z.of_nat (length (offs (getseq st i)))) k with
   | Ok p =>
@@ -618,7 +626,7 @@ Lemma set_int_rows_cells st i k vs : reachable st -> is_live st i = true ->
   | Err e => snd (step st (OSetIntRows i k vs)) = RErr e /\ st' = st
   end.
 Proof.
-  intros R L. pose proof (reachable_wf st R) as W. cbv zeta. unfold step. rewrite L. apply is_live_lt in L.
+  intros R L. pose proof (ok_wf st R) as W. cbv zeta. unfold step. rewrite L. apply is_live_lt in L.
   destruct (norm_index _ k) as [p|e] eqn:N; cbn [fst snd]; auto.
   apply norm_index_lt in N. pose proof (pairs_nth st i p W L N) as Hin.
   unfold assign_rows, cell. cbn [fst snd].
@@ -723,7 +731,7 @@ Qed.
 
 (* seq_i[idx] = seq_j with j on another buffer and no element-wise shape error: the value of every
    element of every object afterwards (a destination listed twice keeps the last source) *)
-Lemma set_idx_seq_cells st i ix j ps : reachable st -> is_live st i = true -> is_live st j = true ->
+Lemma set_idx_seq_cells st i ix j ps : wf st -> is_live st i = true -> is_live st j = true ->
   sbuf (getseq st j) <> sbuf (getseq st i) ->
   positions (length (offs (getseq st i))) ix = Ok ps ->
   let dst := combine (pick 0 (offs (getseq st i)) ps) (pick 0 (lens (getseq st i)) ps) in
@@ -740,7 +748,7 @@ Lemma set_idx_seq_cells st i ix j ps : reachable st -> is_live st i = true -> is
                 else V st x q.
 Proof.
   intros Rch L Lj Hjb P dst src R H1 H2 HC.
-  pose proof (reachable_wf st Rch) as W. cbv zeta. unfold step. rewrite L, Lj, P.
+  pose proof (ok_wf st Rch) as W. cbv zeta. unfold step. rewrite L, Lj, P.
   apply is_live_lt in L. destruct (wf_seq _ W i L) as (_ & S2 & _).
   rewrite pick_length, H1, Nat.eqb_refl. cbn [negb]. rewrite H2, Nat.eqb_refl. cbn [negb].
   apply positions_bound in P.
@@ -754,13 +762,13 @@ Proof.
 Qed.
 
 (* ---------------------------------------------------------------- write-through, as far as it holds *)
-Lemma view_write_through_partial : forall st j ix ps, reachable st -> is_live st j = true ->
+Lemma view_write_through_partial : forall st j ix ps, wf st -> is_live st j = true ->
   positions (length (offs (getseq st j))) ix = Ok ps ->
   let st1 := fst (step st (OGetIdx j ix)) in
   let v := length (seqs st) in
   (sbuf (getseq st1 v) = sbuf (getseq st1 j) /\ length (offs (getseq st1 v)) = length ps /\
    forall m, m < length ps -> cell st1 v m = cell st1 j (nth m ps 0)) /\
-  forall st2 i k x, reachable st2 -> is_live st2 i = true ->
+  forall st2 i k x, wf st2 -> is_live st2 i = true ->
     match norm_index (Z.of_nat (length (offs (getseq st2 i)))) k with
     | Ok p =>
       forall j' q, j' < length (seqs st2) -> q < length (offs (getseq st2 j')) ->
@@ -794,9 +802,9 @@ Proof. vm_compute. repeat split; congruence. Qed.
 Lemma nonvacuous_example :
   let st := exec init [ONew 24 16 true [[1; 2]; []; [3]; [4; 5; 6]]%Z; OGetIdx 0 (IList [2; 0; 2]%Z);
                        OExtend 0 8 true [[7]; [8; 9]]%Z; OGetIdx 0 (ISlice None None (Some (-2)%Z))] in
-  reachable st /\ is_live st 2 = true /\
+  wf st /\ is_live st 2 = true /\
   norm_index (Z.of_nat (length (offs (getseq st 2)))) (-1) = Ok 2 /\
   is_cell st 0 0 (sbuf (getseq st 2)) (cell st 2 2) = true /\
   C (fst (step st (OSetInt 2 (-1) 99))) 0 = [[99; 99]; [3]; [4; 5; 6]; [7]; [8; 9]]%Z /\
   C (fst (step st (OSetInt 2 (-1) 99))) 1 = [[4; 5; 6]; [1; 2]; [4; 5; 6]]%Z.
-Proof. split; [eexists; reflexivity|]. vm_compute. repeat split. Qed.
+Proof. split; [apply wf_exec, wf_init|]. vm_compute. repeat split. Qed.
